@@ -8,6 +8,7 @@ package main
 import (
 	"flag"
 	"fmt"
+	"go/ast"
 	"os"
 	"os/exec"
 	"path/filepath"
@@ -33,7 +34,12 @@ func main() {
 	dump := flag.Bool("dump", false, "print every obligation")
 	noEvidence := flag.Bool("no-evidence", false, "do not write evidence/report files (selftest)")
 	goenv := flag.String("goenv", "", "comma-separated build configuration overrides for the load, e.g. GOARCH=386")
+	portdiff := flag.Bool("portdiff", false, "debug: print statement-level differences between formatter.go and the reference fmt")
 	flag.Parse()
+	if *portdiff {
+		debugPortDiff(*repo)
+		return
+	}
 
 	props := allProperties()
 	if *list {
@@ -292,4 +298,39 @@ func flagSet(name string) bool {
 		}
 	})
 	return set
+}
+
+func debugPortDiff(repo string) {
+	w, err := loadWorld(repo)
+	if err != nil {
+		fmt.Println(err)
+		return
+	}
+	ref, err := w.loadRef("fmt")
+	if err != nil {
+		fmt.Println(err)
+		return
+	}
+	sub := fmtSubst
+	w.AllFuncDecls(w.Root, func(fd *ast.FuncDecl) {
+		if filepath.Base(w.Fset.Position(fd.Pos()).Filename) != "formatter.go" {
+			return
+		}
+		name := funcName(fd)
+		rn := strings.Replace(strings.Replace(name, "formatter.", "fmt.", 1), "fmtbuf.", "buffer.", 1)
+		rf := w.FuncDecl(ref, rn)
+		if rf == nil {
+			fmt.Printf("== %s: no reference function %s\n", name, rn)
+			return
+		}
+		a, b := flattenBody(w.Root, fd, sub), flattenBody(ref, rf, sub)
+		oa, ob := lcsDiff(a, b)
+		fmt.Printf("== %s: %d/%d statements, only-tengo %d, only-ref %d\n", name, len(a), len(b), len(oa), len(ob))
+		for _, s := range oa {
+			fmt.Printf("   T %s   [%s]\n", w.Src(s.Node), w.SitePos(s.Node.Pos()))
+		}
+		for _, s := range ob {
+			fmt.Printf("   R %.160s\n", s.Text)
+		}
+	})
 }
